@@ -69,6 +69,7 @@ func runBridge(r *rc) {
 					if base == nil {
 						base = otto.New()
 					}
+					r.Describe(rendered)
 					r.Begin(key)
 					vm := base.Copy()
 					if err := installBridged(vm, map[string]bool{b: true}); err != nil {
@@ -98,7 +99,7 @@ func runBridge(r *rc) {
 							Observed: "Go panic escaped (" + pr.phase + "): " + panicText(pr.res.PanicVal) + " @ " + site,
 							Note:     trimStack(pr.res.Stack), Aux: a})
 					}
-					if r.WantSample() && (ni+len(op.Name))%5 == 0 {
+					if r.WantSample() && sparse(key, 23) {
 						r.Sample(rendered + "  =>  " + outcome(res))
 					}
 				}()
